@@ -336,18 +336,19 @@ def advSig (sg : Option (Name × Cid)) (rest : Prog) : Prog :=
   | none => rest
   | some (t0, k0) => advertise t0 k0 <| .op (.mark 14) rest
 
-/-- `ExpandApk` into a fresh `expand-apk*` directory, then `tail` (= `cachePackage`) -/
+/-- `ExpandApk` into a fresh `expand-apk*` directory, then `tail` (= `verifyExpanded` and `cachePackage`) -/
 def pkgExpand (sg : Option (Name × Cid)) (t1 t2 t3 : Name) (k1 k2 k3 : Cid) (n : Nat) (tail : Prog) : Prog :=
   .op .mkdir <| .op .mkdir <| .op (.mark 0) <|
   expandHead sg t1 k1 n <|
   .op (.create t2 k2) <| .op (.mark 2) <|
   .op (.create t3 k3) <| .op (.mark 3) <|
   chunks n t2 <| chunks n t3 <| .op (.finish t3) <| .op (.finish t2) <| .op (.mark 4) <|
-  .op (.read t1 true) <| .op (.read t3 false) <| .op (.mark 5) tail
+  .op (.read t1 true) <| .op (.read t3 false) tail
 
 /-- `cachePackage`: the advertises in the code's order — control, signature (signed apk only), data,
 tar — with a marker after each; `pd` is the `PackageData` call at its end -/
 def cacheTail (pd : Prog → Prog) (sg : Option (Name × Cid)) (t1 t2 t3 : Name) (k1 k2 k3 : Cid) : Prog :=
+  .op (.mark 5) <|
   advertise t1 k1 <| .op (.mark 6) <|
   advSig sg <|
   advertise t2 k2 <| .op (.mark 7) <|
@@ -357,13 +358,35 @@ def cacheTail (pd : Prog → Prog) (sg : Option (Name × Cid)) (t1 t2 t3 : Name)
 /-- the regression "signature advertised last" (control, data, tar, signature): kept for the negative
 theorem `hit_has_signature_fails_sig_last` -/
 def cacheTailSigLast (pd : Prog → Prog) (sg : Option (Name × Cid)) (t1 t2 t3 : Name) (k1 k2 k3 : Cid) : Prog :=
+  .op (.mark 5) <|
   advertise t1 k1 <| .op (.mark 6) <|
   advertise t2 k2 <| .op (.mark 7) <|
   advertise t3 k3 <| .op (.mark 8) <|
   advSig sg <|
   pd (pkgUse k1)
 
-/-- cache miss: `ExpandApk`, `cachePackage` -/
+/-- `exp.Close()`: `os.RemoveAll` of the `expand-apk*` directory; the builder stops with an error -/
+def cleanupTail (sg : Option (Name × Cid)) (t1 t2 t3 : Name) : Prog :=
+  let rest := .op (.remove t1) <| .op (.remove t2) <| .op (.remove t3) (.halt false)
+  match sg with
+  | none => rest
+  | some (t0, _) => .op (.remove t0) rest
+
+/-- the repository serves another apk than the one the index lists (a rebuilt package at the same URL,
+a stale index): `ExpandApk` of what was served (`sg`, `k1 k2 k3` are *its* sections), `verifyExpanded`
+fails (the control section's hash is not the listed checksum), `exp.Close()` — nothing is advertised -/
+def pkgRejected (sg : Option (Name × Cid)) (t1 t2 t3 : Name) (k1 k2 k3 : Cid) (n : Nat) : Prog :=
+  pkgExpand sg t1 t2 t3 k1 k2 k3 n (cleanupTail sg t1 t2 t3)
+
+/-- the regression "cachePackage before verifyExpanded": the rejected sections are advertised under
+their own hashes, then `exp.Close()` removes the files the links point at — kept for the negative theorem
+`cache_before_verify_dangles` -/
+def pkgRejectedLate (sg : Option (Name × Cid)) (t1 t2 t3 : Name) (k1 k2 k3 : Cid) (n : Nat) : Prog :=
+  pkgExpand sg t1 t2 t3 k1 k2 k3 n <|
+    .op (.mark 5) <| advertise t1 k1 <| .op (.mark 6) <| advSig sg <| advertise t2 k2 <| .op (.mark 7) <|
+    advertise t3 k3 <| .op (.mark 8) <| .op (.read (.adv k3) false) <| cleanupTail sg t1 t2 t3
+
+/-- cache miss: `ExpandApk`, (`verifyExpanded`: the fetched apk is the listed one,) `cachePackage` -/
 def pkgMissWith (pd : Prog → Prog) (sg : Option (Name × Cid)) (t1 t2 t3 : Name) (k1 k2 k3 : Cid) (n : Nat) : Prog :=
   pkgExpand sg t1 t2 t3 k1 k2 k3 n (cacheTail pd sg t1 t2 t3 k1 k2 k3)
 
@@ -397,6 +420,7 @@ def pkgBuilderOld (t1 t2 t3 : Name) (k1 k2 k3 : Cid) (n : Nat) : Prog :=
 
 /-- the regression "signature advertised after the data section" (control, data, signature, tar) -/
 def cacheTailDatSig (pd : Prog → Prog) (sg : Option (Name × Cid)) (t1 t2 t3 : Name) (k1 k2 k3 : Cid) : Prog :=
+  .op (.mark 5) <|
   advertise t1 k1 <| .op (.mark 6) <|
   advertise t2 k2 <| .op (.mark 7) <|
   advSig sg <|
@@ -436,6 +460,18 @@ def pkgBuilderRacy (sg : Option (Name × Cid)) (t1 t2 t3 t4 : Name) (k1 k2 k3 : 
           (.op (.read (.adv k0) false) <| .op (.mark 12) <| .ifStat (.adv k2) (pd (pkgUse k1)) miss)
           (.op (.mark 12) <| .ifStat (.adv k2) (.op (.unsigned k0) (pd (pkgUse k1))) miss))
     miss
+
+/-- `expandPackage` for a listed package (`sgL`, `k1 k2 k3`) while the repository serves another apk
+(`sgS`, `s1 s2 s3`) under its URL: the cache is consulted for the listed sections; on a miss the served
+apk is expanded and rejected -/
+def pkgBuilderRejected (sgL : Option (Name × Cid)) (t4 : Name) (k1 k2 k3 : Cid)
+    (sgS : Option (Name × Cid)) (t1 t2 t3 : Name) (s1 s2 s3 : Cid) (n : Nat) : Prog :=
+  .ifStat (.adv k1)
+    (.op (.read (.adv k1) true)
+      (.ifStat (.adv k2)
+        (.op (.mark 12) <| sigProbe sgL <| pkgData t4 k2 k3 n (pkgUse k1))
+        (pkgRejected sgS t1 t2 t3 s1 s2 s3 n)))
+    (pkgRejected sgS t1 t2 t3 s1 s2 s3 n)
 
 /-- offline the miss path cannot fetch: `FetchPackage` fails -/
 def pkgOffline (sg : Option (Name × Cid)) (t4 : Name) (k1 k2 k3 : Cid) (n : Nat) : Prog :=
